@@ -307,7 +307,7 @@ fn contents_clone(c: &[ContentSpec]) -> Vec<ContentSpec> {
     c.to_vec()
 }
 
-fn cases_for(model: &gen::Model, seed: u64) -> Vec<Case> {
+fn cases_for(model: &gen::Model, seed: u64, left_out_beside: u32) -> Vec<Case> {
     let n_packs = model.n_packs;
     let absent_mask = model.absent_ids;
     let mut out = vec![];
@@ -399,6 +399,25 @@ fn cases_for(model: &gen::Model, seed: u64) -> Vec<Case> {
             uuid_locator: false,
             entry_style: 0,
         });
+    }
+    // a pack that only the by-uuid locator can find (left out of the one-file edition, lying
+    // beside it) is present for that locator: damaged, the container check has to say so
+    for p in 1..=n_packs {
+        if left_out_beside & (1 << (p - 1)) != 0 {
+            for k in 0..2 {
+                out.push(Case {
+                    subset: 0,
+                    kind: Kind::Removed,
+                    instant: Instant::BeforeOpen,
+                    damaged: p,
+                    order_seed: rng.next_u64(),
+                    custom_locator: false,
+                    via_symlink: false,
+                    uuid_locator: true,
+                    entry_style: k,
+                });
+            }
+        }
     }
     // the same removals with the entry named relative to the process's directory, and through a
     // locator that knows packs by uuid only
@@ -674,7 +693,19 @@ fn run_case(dir: &Path, img: &Image, case: &Case) -> Vec<String> {
         }
         std::fs::write(path, b).unwrap();
     }
-    if case.damaged != 0 && img.embedded {
+    if case.damaged != 0 && img.embedded && img.left_out_beside & (1 << (case.damaged - 1)) != 0 {
+        // the pack that lies beside the one-file edition (only a locator that goes by uuid finds it)
+        let name = img
+            .files
+            .iter()
+            .map(|f| &f.0)
+            .find(|n| n.contains("separately-shipped"))
+            .unwrap_or_else(|| simcore::harness_error("C11: no separately shipped pack file in this image"));
+        let mut b = std::fs::read(dir.join(name)).unwrap();
+        let pos = 130.min(b.len() - 1);
+        b[pos] ^= 0x5a;
+        std::fs::write(dir.join(name), b).unwrap();
+    } else if case.damaged != 0 && img.embedded {
         let want = img.pristine.get(&format!("pack[{}]/uuid", case.damaged)).map(|l| l.short());
         let name = &img.files[0].0;
         let mut b = std::fs::read(dir.join(name)).unwrap();
@@ -894,7 +925,7 @@ pub fn worker_main(args: &Args, w: usize, n: usize) -> ! {
             always_missing: if embedded { logical.opts.concat_leave_out } else { logical.opts.url_located },
             left_out_beside: if embedded && logical.opts.keep_left_out { logical.opts.concat_leave_out } else { 0 },
         });
-        let cases = cases_for(&img.model, simcore::prng::hash_label(args.seed, &name, 0));
+        let cases = cases_for(&img.model, simcore::prng::hash_label(args.seed, &name, 0), img.left_out_beside);
         let total = cases.len() as u64;
         println!(
             "{}",
